@@ -61,7 +61,10 @@ func DefaultsUniverse() *Universe {
 		onlyInc := u.Record(fmt.Sprintf("DI%d", n), []*Type{direct}, Req("own", P(String)))
 		twoLevel := u.Record(fmt.Sprintf("DII%d", n), []*Type{onlyInc}, Req("own2", P(Int64)), Def("top", P(Int32), "3"))
 		nested := u.Record(fmt.Sprintf("DN%d", n), nil, Req("inner", direct), Opt("innerOpt", onlyInc), Req("tail", P(Int32)))
-		u.Wrappers = append(u.Wrappers, direct, onlyInc, twoLevel, nested)
+		// required records with defaults declared after fields of every other kind, in a record with a default of its own
+		late := u.Record(fmt.Sprintf("DL%d", n), nil, Req("head", P(Int32)), Def("own", P(Int32), "5"), Req("inner", direct),
+			Req("arr", ArrayOf(P(Int32))), Req("inner2", onlyInc), Opt("mp", MapOf(P(String))), Req("inner3", twoLevel), Req("tail", P(String)))
+		u.Wrappers = append(u.Wrappers, direct, onlyInc, twoLevel, nested, late)
 	}
 	return u
 }
